@@ -117,7 +117,7 @@ structure Ctx where
   supressErrors : Bool
   stack : List Range
   tp : Range
-deriving Repr
+deriving Repr, DecidableEq
 
 def lookup (m : List (Int × Int)) (k : Int) : Option Int :=
   match m with
